@@ -740,6 +740,10 @@ func cmdCheck(args []string) int {
 				unproved = append(unproved, o.Name+" (known finding)")
 				continue
 			}
+			if *updateBaseline {
+				unproved = append(unproved, o.Name)
+				continue
+			}
 			total++
 			path := writeObligationReplay(g, *prop, o)
 			line := fmt.Sprintf("VIOLATION property=%s replay=%s", *prop, path)
